@@ -68,6 +68,10 @@ def run(rep, tier, seed):
         if tier == "quick" and conf[0] == "fat32-min" and i > 10:
             conf = small512[0]
         scripts.append(sessions.dir_heavy_session(rng, conf, nfiles=rng.range(8, 16)))
+    # directories without room (full fixed root / chain directory on a full volume): failed creates leave orphan long-name slots
+    # behind, later entries land directly behind them - the library's listing after remount and the independent decode must agree
+    for i in range(4 if tier == "quick" else 40):
+        scripts.append(sessions.full_dir_session(rng, "root" if i % 2 else "chain") + ["mount 1 0 lossy", "list 0", "unmount"])
     # volumes exactly at the cluster counts where the FAT width changes (4084|4085, 65524|65525): the width follows from the
     # count alone, the library and the independent decoder must agree on it (geometry found through the boot-sector hook)
     for (clusters, start) in ((4084, 4090), (4085, 4090), (65524, 65600), (65525, 65600)):
